@@ -1,5 +1,7 @@
 """C10 - message layouts conform to the published standards and to each other."""
 
+from . import decoder as DEC
+from . import shared as SH
 from . import tablerules as TR
 
 META = {
@@ -9,6 +11,7 @@ META = {
         "decides D1 grammar, D2 fields defined and well-typed, D3 counter/condition scoping against the decoder's "
         "naming rules (derived-counter map extracted from the decoder), D4 dispatch reachability by constant-folding "
         "the selector on every key, D5 symbolic bit-length polynomial = the standard's formula, D6 sibling relations. "
+        "Shared with C03: what the decoder takes a repeat count to be (derived MSM counts, coefficient-count polynomial, group routine D6-D8). "
         "Exhaustive over all definitions, all field occurrences and all descriptors. Not decided: a transposition of two "
         "equal-width fields inside a message that has no sibling; resolution values."
     ),
@@ -24,6 +27,13 @@ def run(eng, ctx):
     nd = TR.dispatch(eng, ctx, "C10.D4")
     nl = TR.lengths(eng, ctx, "C10.D5")
     nb = TR.siblings(eng, ctx, "C10.D6")
+    # the bit length of a message with given repeat counts depends on what the decoder takes a repeat count to be: the derived counters
+    # (population counts of the MSM masks, the 4076_201 coefficient-count polynomial at the current layer) and the group routine's use
+    # of a count designator (exact count, +1 for the layer counter) are shared obligations
+    m = DEC.DecoderModel(eng)
+    SH.derived_counts(eng, ctx, "C03.D9", labels=False)
+    DEC.harmonic_counts(eng, ctx, "C03.D9b", m)
+    DEC.groups(eng, ctx, "C03.D6", "C03.D7", "C03.D8", m)
     T = eng.tables
     ctx.instance("definitions", sum(1 for _ in T.definitions()), 152)
     ctx.instance("field occurrences + groups", n, 2712)
